@@ -437,7 +437,7 @@ def explore_schedules(prop, tier, seed, wd, n, max_sched):
     import concurrent.futures as cf
     exe = vlib.build_harness("release")
     allc = os.path.join(wd, "explore.all")
-    vlib.gen_cases(exe, allc, "solve:small,hints,fan", n, seed + 77, "", whitebox=False, render=False, first_id=500001)
+    vlib.gen_cases(exe, allc, "solve:small,hints,fan", n, seed + 77, "", whitebox=False, render=False, first_id=5001)
     shards = vlib.split_file(allc, 12, wd, "explore")
     traces, summ = [], []
     def one(sh):
@@ -556,3 +556,100 @@ def _c02(prop, tier, seed, t0):
 
 
 CHECKS["C02"] = _c02
+
+
+# ---------------------------------------------------------------------------
+# AsyncFetch.tla: all interleavings of the fetch protocol (MC) and the
+# pending-set monitor Trace_Async.tla over the recorded async runs
+# ---------------------------------------------------------------------------
+def mc_asyncfetch(prop, tier, seed):
+    exe = vlib.build_harness("release")
+    wd = os.path.join(vlib.WORK, prop)
+    os.makedirs(wd, exist_ok=True)
+    cases = os.path.join(wd, "asyncfetch.cases")
+    n = 12 if tier == "quick" else 60
+    cnt = vlib.gen_cases(exe, cases, "solve:tiny", n, seed + 31, "hints", render=False)
+    try:
+        out, st = vlib.tlc("AsyncFetch.tla", "MC_AsyncFetch.cfg", os.path.join(vlib.WORK, f"md_af_{prop}"),
+                           env_extra={"CASES": cases}, workers=8, timeout=300 if tier == "quick" else 3000,
+                           java_opts="-Xss1g -Xmx8g -XX:+UseParallelGC -XX:ParallelGCThreads=4")
+    except vlib.ToolError as e:
+        if "timeout" not in str(e):
+            raise
+        return {"asyncfetch_mc_incomplete": True}, []
+    if "No error has been found" not in out:
+        tail = "\n".join(l for l in out.splitlines() if not l.startswith('"'))[-2500:]
+        if "violated" in out:
+            d = os.path.join(vlib.REPLAYS, prop)
+            os.makedirs(d, exist_ok=True)
+            path = os.path.join(d, "asyncfetch_counterexample.txt")
+            open(path, "w").write(tail)
+            return {}, [("the AsyncFetch model violates one of its properties", path)]
+        raise vlib.ToolError("TLC failed on AsyncFetch:\n" + tail)
+    return {"asyncfetch_cases": cnt, "asyncfetch_states": st["distinct"], "asyncfetch_transitions": st["states"],
+            "asyncfetch_properties": ["NoDeadlock", "NoDuplicateCall", "MaxIssued", "Causal", "ResultIndependent",
+                                      "EncodeTerminates (liveness)"]}, []
+
+
+def async_monitor(prop, traces):
+    import concurrent.futures as cf
+    fails, cover, st_states, st_trans = [], {}, 0, 0
+    def one(t):
+        return vlib.validate_trace(t, "Trace_Async.tla", "Trace_Async.cfg", tag=prop + "a")
+    with cf.ThreadPoolExecutor(max_workers=12) as ex:
+        for f, covers, begins, st in ex.map(one, traces):
+            fails += f
+            for (_i, _k, tags) in covers:
+                for tg in tags:
+                    cover[tg] = cover.get(tg, 0) + 1
+            st_states += st["distinct"]
+            st_trans += st["states"]
+    return fails, cover, st_states, st_trans
+
+
+def _c10(prop, tier, seed, t0):
+    check.enable_rules(prop)
+    wd = vlib.fresh_dir(os.path.join(vlib.WORK, prop + "x"))
+    xres, info = explore_schedules(prop, tier, seed, wd, 10 if tier == "quick" else 120, 300 if tier == "quick" else 4000)
+    mc_info, mc_viol = mc_asyncfetch(prop, tier, seed)
+    info.update(mc_info)
+    rc = check.trace_check(prop, tier, seed, check.TRACE_PLANS[prop], t0, extra_cov=info)
+    # the pending-set monitor over every async trace recorded above
+    import glob
+    traces = sorted(glob.glob(os.path.join(vlib.WORK, prop, "*.trace"))) + sorted(glob.glob(os.path.join(wd, "*.trace")))
+    afails, acover, astates, atrans = async_monitor(prop, traces)
+    ev = json.load(open(os.path.join(vlib.EVIDENCE, f"{prop}.json")))
+    fails = [f for f in vlib.first_fail_per_run(xres.fails) if check.owned_by(prop, f["rule"])]
+    fails += [f for f in vlib.first_fail_per_run(afails) if check.owned_by(prop, f["rule"])]
+    c = ev["coverage"]
+    c["traces_validated_against_impl"] += xres.runs
+    c["evaluations"] += xres.runs
+    c["distinct_nontrivial"] += xres.cover.get("quiescent2", 0)
+    c["states"] += xres.states + astates + mc_info.get("asyncfetch_states", 0)
+    c["transitions"] += xres.transitions + atrans + mc_info.get("asyncfetch_transitions", 0)
+    c["pending_set_monitor"] = {"encodes_followed": acover.get("encode_followed", 0),
+                                "quiescent_points_compared": acover.get("pending", 0),
+                                "with_two_or_more_pending": acover.get("pending2", 0),
+                                "with_ambiguous_model_state": acover.get("ambiguous", 0)}
+    ev["wall_s"] = round(time.time() - t0, 1)
+    shown = set()
+    for f in fails:
+        if f["rule"] in shown:
+            continue
+        shown.add(f["rule"])
+        path = vlib.write_replay(prop, f)
+        print(f"VIOLATION property={prop} replay={path}")
+        vlib.log(f"  rule={f['rule']} case={f['id']} info={f['info'][:300]}")
+        rc = 1
+    for (msg, path) in mc_viol:
+        print(f"VIOLATION property={prop} replay={path}")
+        rc = 1
+    ev["violations"] = ev.get("violations", 0) + len(fails) + len(mc_viol)
+    json.dump(ev, open(os.path.join(vlib.EVIDENCE, f"{prop}.json"), "w"), indent=1)
+    return rc
+
+
+CHECKS["C10"] = _c10
+CHECKS["C11"] = _c10
+for _p in ("C10", "C11"):
+    META[_p]["text"] += " AsyncFetch.tla (run-to-quiescence model of Encoder + SolverCache) is model checked over all interleavings of tiny universes (no deadlock, no duplicate call, maximal issuance, causality, order-independent result, termination), and Trace_Async.tla follows the first encode of every recorded async run through that model: the multiset of outstanding provider requests must equal the model's at every quiescent point."
